@@ -613,9 +613,24 @@ func zzHex(b []byte) string {
 }
 
 // zzSymLeavesFree is zzSymLeaves without the "set elements are distinct" assumption.
-type zzSymLeavesFree struct{ zzSymLeaves }
+type zzSymLeavesFree struct {
+	zzSymLeaves
+	k, n int // presence budget as in zzBudgetLeaves (k < 0: unlimited)
+}
 
 func (zzSymLeavesFree) Assume(c bool) {}
+
+func (f *zzSymLeavesFree) Bool(name string) bool {
+	if name != "set" || f.k < 0 {
+		return zzrt.Bool(name)
+	}
+	if f.k > 0 {
+		f.k--
+		return zzrt.Bool(name)
+	}
+	f.n++
+	return f.n%2 == 1
+}
 
 func zzIsContainer(t *zzType) bool { return t.K == zzList || t.K == zzSet || t.K == zzMap }
 
@@ -743,13 +758,22 @@ type zzRecLeaves struct {
 	zzSymLeaves
 	bools   []bool
 	chooses []int
+	budget  int // > 0: only the first budget presence decisions are decision variables, the rest alternate
+	fixed   int
 }
 
 func (r *zzRecLeaves) Bool(n string) bool {
-	b := zzrt.Bool(n)
-	if n == "set" {
-		r.bools = append(r.bools, b)
+	if n != "set" {
+		return zzrt.Bool(n)
 	}
+	var b bool
+	if r.budget > 0 && len(r.bools) >= r.budget {
+		r.fixed++
+		b = r.fixed%2 == 1
+	} else {
+		b = zzrt.Bool(n)
+	}
+	r.bools = append(r.bools, b)
 	return b
 }
 
